@@ -5,4 +5,4 @@ From OFGA Require Import Sem.Cond.
 Extraction Language OCaml.
 Extraction "c25_model.ml"
   evaluate_tuple_condition evaluate convert spec_convert as_interface eval_flag conv_flag
-  num_clamped num_rounded num_inexact merge lookup parse_bigf compiles eval dy_compare fcompare ctx_size.
+  num_rounded num_inexact merge lookup parse_bigf compiles eval dy_compare fcompare ctx_size.
